@@ -94,10 +94,16 @@ def checkChain (s : HistStore) : Except Err Unit :=
       | .missing => throw errMissingManifest
     | none => throw errMissingManifest) ()
 
-/-- the manifests found in the folder, numbered by name and sorted by number (stable) -/
+/-- is the manifest file listed in the chain file?  The chain file is what commits a generation: a manifest it does
+not list (left behind by a create that was interrupted between the two replaces) is not part of the history
+(`listed_filenames` in `load_from_path`) -/
+def HistStore.lists (s : HistStore) (fileName : String) : Bool := s.chain.any fun e => e.fileName == fileName
+
+/-- the manifests found in the folder that the chain lists, numbered by name and sorted by number (stable) -/
 def loadGens (s : HistStore) : List LGen :=
   let found := s.gens.filterMap fun g =>
-    if g.state == .missing then none else (parseGenName g.fileName).map fun n => (⟨n, g⟩ : LGen)
+    if g.state == .missing || !s.lists g.fileName then none
+    else (parseGenName g.fileName).map fun n => (⟨n, g⟩ : LGen)
   isort (fun a b => a.number ≤ b.number) found
 
 /-- the checks `load_from_path` makes on the folder itself, before it looks for nested histories: chain file
